@@ -24,4 +24,11 @@ def b2n (b : Bool) : Nat := if b then 1 else 0
 
 def byteAt (bs : Bytes) (i : Nat) : Nat := (bs.getD i 0).toNat
 
+/-- `Internals::pdu_to_ether_type(const PDU&)`: the per-class table, except that PPPoE answers by its stage
+    (code 0 = session 0x8864, otherwise discovery 0x8863); 0 = `Constants::Ethernet::UNKNOWN` -/
+def etherTagOf (i : LayerInfo) : Nat :=
+  let t := Tags.pduTypeOf i.cls
+  if t == "PPPOE" then (if i.fields.get "code" == some "0" then 34916 else 34915)
+  else Tags.etherOfPduType t
+
 end Tins.Wire.L2
